@@ -47,10 +47,10 @@ def _chunked(body: bytes, sizes=None, ext: str = "") -> bytes:
     return bytes(out)
 
 
-def build_response(spec: dict, req: Req | None, idx: int) -> tuple[bytes, bool]:
-    """Serialise a scripted response.  Returns (bytes, self_delimiting_keepalive)."""
+def build_response(spec: dict, req: Req | None, idx: int) -> tuple[bytes, bool, bytes]:
+    """Serialise a scripted response.  Returns (bytes, keepalive, body)."""
     if spec.get("k") == "raw":
-        return binascii.unhexlify(spec["hex"]), spec.get("end", "keep") == "keep"
+        return binascii.unhexlify(spec["hex"]), spec.get("end", "keep") == "keep", b""
     status = int(spec.get("status", 200))
     reason = spec.get("reason", "OK")
     body = spec.get("body", None)
@@ -90,7 +90,7 @@ def build_response(spec: dict, req: Req | None, idx: int) -> tuple[bytes, bool]:
     elif version == "HTTP/1.0":
         lines.append(b"Connection: keep-alive")
     data = b"\r\n".join(lines) + b"\r\n\r\n" + payload
-    return data, keepalive
+    return data, keepalive, (b"" if bodyless and not spec.get("force_body") else body)
 
 
 class HttpPeer:
@@ -221,7 +221,9 @@ class HttpPeer:
         delay = float(spec.get("delay", 0.0))
         w.log("respond", None, (self.name, chan.sid, k, spec.get("status", 200) if k == "resp" else None))
         if k in ("resp", "raw"):
-            data, keep = build_response(spec, r, r.idx if r is not None else -1)
+            data, keep, body = build_response(spec, r, r.idx if r is not None else -1)
+            if r is not None:
+                w.answers[r.idx] = (int(spec.get("status", 200)) if k == "resp" else None, body, chan.sid, list(spec.get("interim") or []))
             cut = spec.get("cut")
             if cut is not None:
                 data = data[: int(cut)]
@@ -231,12 +233,19 @@ class HttpPeer:
             if pre:
                 for st in pre:
                     chan.peer_push(f"HTTP/1.1 {st} Interim\r\n\r\n".encode(), delay)
-            chan.peer_push(data, delay)
+            split = spec.get("split")  # [offset, extra delay]: the tail arrives later
+            if split and 0 < int(split[0]) < len(data):
+                chan.peer_push(data[: int(split[0])], delay)
+                delay += float(split[1])
+                chan.peer_push(data[int(split[0]) :], delay)
+                w.faults_fired["resp:split_delay"] += 1
+            else:
+                chan.peer_push(data, delay)
             stray = spec.get("stray")
             if stray:
                 w.faults_fired["resp:stray"] += 1
                 sd = float(spec.get("stray_delay", 0.0))
-                chan.peer_push(_stray_bytes(stray), delay + sd)
+                chan.peer_push(_stray_bytes(stray), delay + sd, stray=True)
             end = spec.get("end")
             if end is None:
                 end = "keep" if keep else "eof"
